@@ -201,3 +201,126 @@ def rule_cas_epoch_blind(ctx):
 
 def _k(t):
     return t
+
+
+# ------------------------------------------------------------------------------------------
+def _is_param_ptr(t):
+    """`<param>.ptr` (through derefs / refs)"""
+    t = strip(t)
+    if not (isinstance(t, tuple) and t[0] == "field" and t[1] == "ptr"):
+        return False
+    x = strip(t[2])
+    while isinstance(x, tuple) and x[0] in ("deref", "ref"):
+        x = strip(x[1])
+    return isinstance(x, tuple) and x[0] == "arg"
+
+
+def _word_base(prog, body, t):
+    """Is `t` a word that reaches this function unmodified: a handle parameter's `.ptr`, what `into_raw` of a handle
+    returned, what an atomic operation on the link returned (or the payload of its result), null / the taken link?"""
+    t = strip(t)
+    if _is_param_ptr(t):
+        return True
+    if isinstance(t, tuple) and t[0] == "field" and t[1] in ("0", 0) and isinstance(t[2], tuple) and t[2][0] == "variant":
+        return _word_base(prog, body, t[2][2])
+    if isinstance(t, tuple) and t[0] == "call":
+        nt = norm(t[1])
+        if nt in ("strong::Rc::into_raw", "weak::Weak::into_raw"):
+            return True
+        if nt.startswith("atomic::Atomic::") and nt.split("::")[-1] in ("load", "swap", "compare_exchange", "compare_exchange_weak"):
+            return True
+        if nt in ("std::mem::take", "std::mem::replace") or nt.endswith("::null") or nt.endswith("Default>::default"):
+            return True
+    if isinstance(t, tuple) and t[0] == "load":
+        return _word_base(prog, body, t[1])
+    if isinstance(t, tuple) and t[0] == "deref":
+        x = strip(t[1])
+        return isinstance(x, tuple) and x[0] == "call" and norm(x[1]) == "atomic::Atomic::get_mut"
+    return False
+
+
+def _word_ok(prog, body, t, allow_ts, allow_tag):
+    t = strip(t)
+    if _word_base(prog, body, t):
+        return True
+    if isinstance(t, tuple) and t[0] == "call":
+        nt = norm(t[1])
+        if nt.endswith("::with_timestamp") and allow_ts and t[2]:
+            return _word_ok(prog, body, t[2][0], False, allow_tag)
+        if nt == "ebr_impl::pointers::Tagged::with_tag" and allow_tag and len(t[2]) == 2:
+            tag = strip(t[2][1])
+            return isinstance(tag, tuple) and tag[0] == "arg" and _word_base(prog, body, t[2][0])
+    return False
+
+
+def rule_link_tag(ctx):
+    """The low tag is part of the value of an AtomicRc / AtomicWeak cell.  pclass() - the ownership ledger's notion of
+    'same object' - deliberately ignores tags, so the ledger cannot see a word that loses or changes its tag on the way
+    into or out of a link.  This rule follows the *exact* word."""
+    r = RuleResult("LINK-TAG", ["C08", "C09"],
+                   "every word written to a link and every word handed back in a handle is, exactly, a parameter's `.ptr` / "
+                   "`into_raw()` / what the link returned - modified only by with_timestamp (strong writes) and, in "
+                   "compare_exchange_tag, by with_tag(expected, desired_tag)")
+    prog = ctx.prog
+    n = 0
+    ex = Exec(prog, unroll=2)
+    for name, b in sorted(prog.bodies.items()):
+        if b.kind == "closure":
+            continue
+        isf = b.j.get("impl_self") or ""
+        side = "strong" if "strong::AtomicRc" in isf else "weak" if "weak::AtomicWeak" in isf else None
+        if side is None:
+            continue
+        if name in prog.auto_inline():
+            continue      # a helper introduced by a refactoring: followed inlined in the methods that call it
+        tagm = name.endswith("compare_exchange_tag")
+        seen = set()
+        for p in ex.paths(b):
+            if p.exit[0] == "diverge":
+                continue
+            r.paths += 1
+            written = []
+            for e in p.events:
+                if e.kind != "call" or not (e.ntarget or "").startswith("atomic::Atomic::"):
+                    continue
+                op = e.ntarget[len("atomic::Atomic::"):]
+                if op in ("swap", "store", "new") and len(e.args) >= (1 if op == "new" else 2):
+                    written.append((op, e.args[0] if op == "new" else e.args[1], e, "new value"))
+                elif op in ("compare_exchange", "compare_exchange_weak"):
+                    written.append((op, e.args[2], e, "new value"))
+                    written.append((op, e.args[1], e, "expected value"))
+            for (op, w, e, role) in written:
+                key = (op, role, e.bb)
+                if key in seen:
+                    continue
+                seen.add(key)
+                n += 1
+                r.functions.add(name)
+                ok = _word_ok(prog, b, w, side == "strong" and role == "new value", tagm and role == "new value")
+                r.instance("%s: %s of %s is an unmodified word" % (name.split("::")[-1], role, op), ok)
+                if not ok:
+                    r.violate(name, "write:%s:%s" % (op, role.split()[0]), "the %s of `%s` is `%s`: the word is changed on its "
+                              "way into the link (the tag is part of the cell's value; only with_timestamp%s may touch it)"
+                              % (role, op, show(w)[:80], " / with_tag(expected, desired_tag)" if tagm else ""), e.loc())
+            if p.exit[0] == "return" and p.ret is not None:
+                for x in subterms(p.ret):
+                    word = None
+                    if x[0] == "call" and norm(x[1]).endswith("::from_raw") and x[2]:
+                        word = x[2][0]
+                    elif x[0] == "agg" and x[1] in ("strong::Snapshot", "strong::Rc", "weak::Weak", "weak::WeakSnapshot") and x[3]:
+                        word = x[3][0]
+                    if word is None:
+                        continue
+                    key = ("ret", show(strip(word))[:120])
+                    if key in seen:
+                        continue
+                    seen.add(key)
+                    n += 1
+                    r.functions.add(name)
+                    ok = _word_ok(prog, b, word, tagm and side == "strong", tagm)
+                    r.instance("%s: returned handle wraps an unmodified word" % name.split("::")[-1], ok)
+                    if not ok:
+                        r.violate(name, "return", "hands back `%s`: the word read from the link (or given by the caller) is "
+                                  "changed before it is returned (a tag lost or rewritten)" % show(word)[:80], b.loc(0))
+    r.require(n, 25, "link words followed")
+    return r
